@@ -145,34 +145,60 @@ def views(exe, root, seed, stats):
     os.symlink('/nonexistent/stale', os.path.join(a.pool, 'old/stale_link'))
     os.makedirs(os.path.join(a.pool, 'emptydir/x'), exist_ok=True)
     with open(os.path.join(a.pool, 'foreign.txt'), 'w') as f: f.write('keep me')
-    before_data = {d: sorted(os.listdir(a.ddir(d))) for d in a.disks}
-    pr = a.cmd('pool')
-    links, others, emptydirs = {}, [], []
-    for dp, dn, fn in os.walk(a.pool):
-        rel = os.path.relpath(dp, a.pool)
-        if rel != '.' and not dn and not fn: emptydirs.append(rel)
-        for n in fn + [x for x in dn if os.path.islink(os.path.join(dp, x))]:
-            p = os.path.join(dp, n)
-            if os.path.islink(p): links[os.fsencode(os.path.relpath(p, a.pool))] = os.readlink(p)
-            else: others.append(os.path.relpath(p, a.pool))
-    recorded = {}
-    for f in dec.files:
-        recorded.setdefault(f['sub'], maps[f['mapping']])
-    for k, m, sub, lt in dec.links:
-        recorded.setdefault(sub, maps[m])
-    stats['pool_links'] += len(recorded)
-    if pr.rc != 0:
-        problems.append(('pool exits %d: %s' % (pr.rc, pr.out[-200:]), ''))
-    elif set(links) != set(recorded):
-        problems.append(('pool directory holds links %r (symmetric difference with the recorded files and links)' % (sorted(set(links) ^ set(recorded))[:4],), ''))
-    else:
-        for sub, target in links.items():
-            if not any(os.fsencode(target) == os.fsencode(a.ddir(d)) + b'/' + sub for d in a.disks):
-                problems.append(('pool link %r points to %r, not to the recorded file' % (sub, target), '')); break
-        if 'foreign.txt' not in others:
-            problems.append(('pool removed a foreign file', ''))
-        if emptydirs:
-            problems.append(('pool left empty directories %r' % emptydirs[:3], ''))
+    def verify_pool(decx, when):
+        pr = a.cmd('pool')
+        mapsx = [m[0].decode('latin-1') for m in decx.maps]
+        links, others, emptydirs = {}, [], []
+        for dp, dn, fn in os.walk(a.pool):
+            rel = os.path.relpath(dp, a.pool)
+            if rel != '.' and not dn and not fn: emptydirs.append(rel)
+            for n in fn + [x for x in dn if os.path.islink(os.path.join(dp, x))]:
+                p = os.path.join(dp, n)
+                if os.path.islink(p): links[os.fsencode(os.path.relpath(p, a.pool))] = os.readlink(p)
+                else: others.append(os.path.relpath(p, a.pool))
+        recorded = {}
+        for f in decx.files:
+            recorded.setdefault(f['sub'], set()).add(mapsx[f['mapping']])
+        for k, m, sub, lt in decx.links:
+            recorded.setdefault(sub, set()).add(mapsx[m])
+        stats['pool_links'] += len(recorded)
+        if pr.rc != 0:
+            problems.append(('pool %s exits %d: %s' % (when, pr.rc, pr.out[-200:]), ''))
+        elif set(links) != set(recorded):
+            problems.append(('pool directory %s holds links %r (symmetric difference with the recorded files and links)' % (when, sorted(set(links) ^ set(recorded))[:4],), ''))
+        else:
+            for sub, target in links.items():
+                if not any(os.fsencode(target) == os.fsencode(a.ddir(d)) + b'/' + sub for d in recorded[sub]):
+                    problems.append(('pool link %r %s points to %r, not to the recorded entry on %s' % (sub, when, target, sorted(recorded[sub])), '')); break
+            if 'foreign.txt' not in others:
+                problems.append(('pool removed a foreign file', ''))
+            if emptydirs:
+                problems.append(('pool left empty directories %r' % emptydirs[:3], ''))
+    verify_pool(dec, '(first run)')
+    # ---- pool again on the populated directory after entries moved to another disk under the same relative name
+    if not problems and a.ndisks >= 2:
+        moved = 0
+        snapx = a.snapshot()
+        for (d, rel), v in sorted(snapx.items()):
+            if moved >= 4: break
+            if v[0] not in ('l', 'f'): continue
+            if v[0] == 'f' and not rng.chance(1, 3): continue
+            d2 = [x for x in a.disks if x != d and not os.path.lexists(a.path(x, rel))]
+            if not d2: continue
+            dst = a.path(d2[0], rel)
+            q = os.path.dirname(dst); okp = True
+            while q != a.ddir(d2[0]):
+                if os.path.lexists(q) and not os.path.isdir(q): okp = False
+                q = os.path.dirname(q)
+            if not okp: continue
+            os.makedirs(os.path.dirname(dst), exist_ok=True)
+            os.rename(a.path(d, rel), dst); moved += 1
+            s.log('move %s/%r -> %s (same relative name)' % (d, rel, d2[0]))
+        if moved:
+            r = s.sync()
+            if r.rc == 0:
+                verify_pool(fx.decode(a), '(second run, after %d entries moved to another disk)' % moved)
+                stats['pool_reruns'] = stats.get('pool_reruns', 0) + 1
     cfg = 'ndisks=%d seed=%d' % (a.ndisks, seed)
     hist = '\n'.join(s.history)
     a.destroy()
